@@ -55,6 +55,7 @@ theorem wrView_step (s : State) (i : Input) (h : ∀ p sid fb, i ≠ .outboundSu
     all_goals rfl
   | responseDone f => rfl
   | responderWrites sid response => rfl
+  | clogged => rfl
 
 structure Wr (s : State) : Prop where
   keys : s.written.map Prod.fst = s.sentOn.map Prod.fst
